@@ -3227,11 +3227,14 @@ func (r *Resolver) verifyRootKeys(ctx context.Context, msg *dns.Msg) (bool, erro
 	}
 
 	work := r.dnssecWork(ctx)
-	if _, err := dnssec.VerifyDSWithWork(keys, dsset, work); err != nil {
+	anchored, _, err := dnssec.AnchoredKeysWithWork(keys, dsset, work)
+	if err != nil {
 		return false, err
 	}
 
-	if _, err := dnssec.VerifyRRSIGWithWork(rootzone, keys, msg, work); err != nil {
+	// The root DNSKEY set must be signed by a key the configured trust
+	// anchors vouch for, not merely by a key it contains.
+	if _, err := dnssec.VerifyRRSIGAnchoredWithWork(rootzone, keys, anchored, msg, work); err != nil {
 		return false, err
 	}
 
@@ -3300,7 +3303,17 @@ func (r *Resolver) verifyDNSSEC(ctx context.Context, signer, signed string, resp
 		return false, fmt.Errorf("DS RR set empty")
 	}
 
-	unsupportedOnly, err := dnssec.VerifyDSWithWork(keys, parentdsRR, r.dnssecWork(ctx))
+	// When the message under validation is the signer's own DNSKEY set, the
+	// keys the DS set vouches for are collected: the set has to be signed by
+	// one of them (RFC 4035 §5.2), see below.
+	validatingKeySet := msg == resp
+	var anchoredKeys map[uint16][]*dns.DNSKEY
+	var unsupportedOnly bool
+	if validatingKeySet {
+		anchoredKeys, unsupportedOnly, err = dnssec.AnchoredKeysWithWork(keys, parentdsRR, r.dnssecWork(ctx))
+	} else {
+		unsupportedOnly, err = dnssec.VerifyDSWithWork(keys, parentdsRR, r.dnssecWork(ctx))
+	}
 	if err != nil {
 		zlog.Debug("DNSSEC DS verify failed", "signer", signer, "signed", signed, "error", err.Error(), "unsupported only", unsupportedOnly)
 		if unsupportedOnly {
@@ -3317,7 +3330,12 @@ func (r *Resolver) verifyDNSSEC(ctx context.Context, signer, signed string, resp
 		return false, nil
 	}
 
-	if ok, err = dnssec.VerifyRRSIGWithWork(signer, keys, resp, r.dnssecWork(ctx)); err != nil {
+	if validatingKeySet {
+		ok, err = dnssec.VerifyRRSIGAnchoredWithWork(signer, keys, anchoredKeys, resp, r.dnssecWork(ctx))
+	} else {
+		ok, err = dnssec.VerifyRRSIGWithWork(signer, keys, resp, r.dnssecWork(ctx))
+	}
+	if err != nil {
 		return
 	}
 
